@@ -40,6 +40,12 @@ Proof. vm_compute. reflexivity. Qed.
 Lemma class_level_state_ok : set_eqb Gen_Members.class_level_attrs modelled_class_attrs = true.
 Proof. vm_compute. reflexivity. Qed.
 
+(* the validate() that the two build-time call sites run is validate() with its default arguments: the default of `recursive`
+   is a bool literal and add()/component_factory pass nothing or that same literal *)
+Lemma build_time_validate_is_default_validate :
+  build_time_rec_agreesb Gen_Members.validate_default_recursive Gen_Members.validate_sites = true.
+Proof. vm_compute. reflexivity. Qed.
+
 (* the switch is a plain global: neuroml/build_time_validation.py is a docstring and `ENABLED = True`, the helpers of
    neuroml/__init__.py assign / return that attribute of the module bound by `from . import build_time_validation`, and the only
    other use in the package is the read in add()/component_factory - one cell, shared by every thread *)
@@ -214,6 +220,46 @@ def pair_sessions(ck, tab, T, mir, exhaustive):
             sessions.append({"isolate": True, "pair": [p, d], "ops": [{"op": "enable"}, dict(fd, after=None), dict(fp), dict(fd)]})
     ck.extra["ancestor_derived_pairs"] = len(pairs)
     return sessions
+
+
+def deep_sessions(ck, tab, T, mir):
+    """fixed, both tiers, independent of the random stream: components that are fine themselves but own a child that is NOT valid -
+    what the factory hands back with validation on must pass a plain validate() (default arguments), whatever depth that looks at.
+    (a) Cell with an id only (the factory attaches an empty Morphology / BiophysicalProperties), every via x form;
+    (b) for every class with a child-component member whose class has a required member: schema-valid keywords with that child
+        replaced by an empty one (e.g. Network(.., populations=[Population()]))."""
+    vg = ValidGen(tab, T, ck.rng)
+    calls = []
+
+    def F(c, kw, via, form, key):
+        return {"op": "factory", "cls": c, "kw": kw, "validate": True, "form": form, "via": via, "host": "NeuroMLDocument",
+                "kind": "deep", "key": key}
+    if "Cell" in T.order:
+        for via in ("classmethod", "utils"):
+            for form in ("str", "class"):
+                calls.append(F("Cell", [["id", {"s": "c"}]], via, form, "factory-attached-children"))
+    n = 0
+    for c in T.order:
+        pick = None
+        for e in vg.members(c):
+            ch = e.get("child")
+            if e["attr"] or not ch or ch not in vg.C or e.get("ckind") not in ("obj", "objlist"):
+                continue
+            if any(x["required"] for x in vg.members(ch)):
+                pick = e
+                break
+        if pick is None:
+            continue
+        kw = [x for x in vg.kwargs(c, optional=0.0) if x[0] != pick["name"]]
+        empty = {"cls": pick["child"], "kw": []}
+        kw.append([pick["name"], {"l": [empty]} if pick.get("ckind") == "objlist" else {"o": empty}])
+        n += 1
+        forms = [("classmethod", "str")] + ([("utils", "class")] if c in ("Network", "NeuroMLDocument", "Cell", "Morphology") else [])
+        for via, form in forms:
+            calls.append(F(c, kw, via, form, "incomplete-child:" + pick["name"]))
+    ck.extra["deep_subjects"] = n
+    ck.extra["deep_calls"] = len(calls)
+    return [{"ops": [{"op": "enable"}] + calls[i:i + 12]} for i in range(0, len(calls), 12)]
 
 
 THREAD_FIXED = [("Network", [["id", {"s": "net"}]], "NeuroMLDocument"), ("IafCell", [["id", {"s": "iaf"}]], "NeuroMLDocument")]
@@ -549,6 +595,11 @@ def add_cases(ck, T, mir, classes, n):
     vg = ValidGen({"classes": list(mir.C.values())}, T, rng)
     pairs = [(p, c) for p in mir.order for c in classes if len(mir.targets(p, c)) == 1]
     cases = []
+    # fixed: add(<class>) with validation on for components that own a not-valid child (see deep_sessions)
+    if "Cell" in T.order and "NeuroMLDocument" in T.order:
+        deep = [{"child": {"kind": "cls", "cls": "Cell", "kw": [["id", {"s": "c"}]], "form": f}, "hint": None, "force": False,
+                 "validate": True, "typo": None, "mark": "deep"} for f in ("str", "class")]
+        cases.append({"enabled": True, "parent": {"cls": "NeuroMLDocument", "kw": [["id", {"s": "doc"}]]}, "calls": deep})
     for p, c in (rng.sample(pairs, min(n, len(pairs))) if pairs else []):
         scal = [[k, v] for k, v in vg.kwargs(c, depth=0, optional=0.3) if v is None or "s" in v or "i" in v or "f" in v]
         typo = misspell(rng, mir, c)
@@ -570,7 +621,8 @@ def add_predicate(ck, cases_res):
             on = case["enabled"] and call["validate"]
             inp = {"parent": case["parent"], "enabled": case["enabled"], "call": call}
             ck.count(1, nontrivial_key=json.dumps([case["parent"]["cls"], call["child"]["cls"], bool(call.get("typo")), on]))
-            ck.tally("add:%s:%s:%s" % ("typo" if call.get("typo") else "valid-keywords", "on" if on else "off", "returns" if code == 0 else "raises"))
+            ck.tally("add:%s:%s:%s" % ("typo" if call.get("typo") else ("deep" if call.get("mark") == "deep" else "valid-keywords"),
+                                       "on" if on else "off", "returns" if code == 0 else "raises"))
             if not r.get("switch_unchanged", True):
                 ck.witness("C09:call-changes-the-global-switch", "add() changed the global switch", input=inp)
             if call.get("typo"):
@@ -615,7 +667,7 @@ def run(ck):
         ck.oblige("Props_C09.v", False, "instance obligations failed", kind="theorem")
     thorough = ck.tier == "thorough"
     sessions = make_sessions(ck, tab, T, mir, list(T.order), thorough)
-    sessions = sessions[:1] + thread_sessions(ck, tab, T, mir, thorough) + pair_sessions(ck, tab, T, mir, thorough) + sessions[1:]
+    sessions = sessions[:1] + deep_sessions(ck, tab, T, mir) + thread_sessions(ck, tab, T, mir, thorough) + pair_sessions(ck, tab, T, mir, thorough) + sessions[1:]
     order = {c: T.field_order(c) for c in T.order}
     chunk = 25
     parts = [sessions[i:i + chunk] for i in range(0, len(sessions), chunk)]
